@@ -658,3 +658,40 @@ func DistinctLeaves(d *DNode) *DNode {
 
 // Perturb applies one random mutation to a copy of d.
 func (g *G) Perturb(d *DNode) *DNode { return g.perturb(d) }
+
+// FilterContainer builds a container (array or object) of n pairwise-distinct members whose
+// contents are derived from q's operand paths so that members hit, miss or mistype them, plus
+// the witnesses for "$"-rooted operands that must be merged into the document root.
+func (g *G) FilterContainer(q *Query, n int, asObj bool) (*DNode, *DNode) {
+	b := &docBuilder{g: g}
+	var members []*DNode
+	seen := map[string]bool{}
+	for i := 0; i < n; i++ {
+		var base *DNode
+		if g.chance("memberobj", 70) {
+			base = Obj()
+		} else {
+			base = g.Leaf()
+		}
+		m := b.memberFor(q, base)
+		if m.K == DObj {
+			m = m.Clone()
+			m.Set("id", Num(float64(100+i)))
+		}
+		if seen[m.JSON()] {
+			m = Num(float64(1000 + i))
+		}
+		seen[m.JSON()] = true
+		members = append(members, m)
+	}
+	var c *DNode
+	if asObj {
+		c = Obj()
+		for i, m := range members {
+			c.Set("k"+strconv.Itoa(i), m)
+		}
+	} else {
+		c = Arr(members...)
+	}
+	return c, b.atRoot
+}
